@@ -356,7 +356,7 @@ def r11_8(prog: Program, rep: Report, rule="R11.8"):
     af = prog.function(f"{C.INSP}.args")
     ann = ("param", af.params[0])
     # raw string members (a builtin generic keeps them: list['Node']) are references too -- except in a Literal
-    str_members = lit_excluded = False
+    str_members = lit_excluded = lit_leak = False
     for p in P.paths_of(prog, af):
         if not any(g == ("param", "evaluate") and pol for g, pol in p.guards()):
             continue
@@ -366,9 +366,36 @@ def r11_8(prog: Program, rep: Report, rule="R11.8"):
                     str_members = True
                 if x[0] == "comp" and any(T.is_call_to(cd, "builtins.isinstance") and T.refname(cd[2][1]) == "builtins.str" for cd in x[4]) and T.contains(x[2], lambda y: T.is_call_to(y, "typelib.py.refs.forwardref")):
                     str_members = True
-        if any(T.contains(g, lambda y: T.refname(y) == "typing.Literal" or T.is_call_to(y, f"{C.INSP}.isliteral")) for g, _pol in p.guards()):
+        # (on a path that makes references of string members, the annotation is known *not* to be a Literal)
+        makes_refs = any(T.contains(tm, lambda y: T.is_call_to(y, "typelib.py.refs.forwardref")) for tm in p.all_terms())
+        atoms11 = T.derive_atoms(p.guards())
+        not_literal = any((not val) and ((a[0] == "cmp" and a[1] == "is" and any(T.refname(y) == "typing.Literal" for y in a[2:4])) or T.is_call_to(a, f"{C.INSP}.isliteral")) for a, val in atoms11)
+        if makes_refs and not_literal:
             lit_excluded = True
-    rep.check(str_members and lit_excluded, rule, af.qualname, af.loc, "args(evaluate=True) turns raw string members into references first (Literal members stay values)", "args(evaluate=True) leaves raw string members as they are (refs.evaluate returns a str unchanged): the routine constructors look list['Item'] / dict[str, 'Item'] members up under the *string*, which is no key of the context (KeyError), or dispatch on a str object (TypeError)" if not str_members else "raw string members are turned into references for Literal annotations too: the members of Literal['a', 'b'] are values", detail="args-evaluate-strings")
+        if makes_refs and not not_literal:
+            lit_leak = True
+    rep.check(str_members and lit_excluded and not lit_leak, rule, af.qualname, af.loc, "args(evaluate=True) turns raw string members into references first (Literal members stay values)", "args(evaluate=True) leaves raw string members as they are (refs.evaluate returns a str unchanged): the routine constructors look list['Item'] / dict[str, 'Item'] members up under the *string*, which is no key of the context (KeyError), or dispatch on a str object (TypeError)" if not str_members else "raw string members are turned into references for Literal annotations too: the members of Literal['a', 'b'] are values", detail="args-evaluate-strings")
+    # ... and the constructors ask for it: the graph evaluates string members, so the context is keyed by the evaluated type --
+    # every routine constructor that takes its members from inspection.args passes evaluate=True
+    raw_ctor = []
+    n_ctor = 0
+    for d in ("marshal", "unmarshal"):
+        for c in C.routine_classes(prog, d):
+            init = c.methods.get("__init__")
+            if init is None:
+                continue
+            for p in P.paths_of(prog, init):
+                # (only where the members are looked up in the context: the members of a Literal are values)
+                keys = [y[2] for tm in p.all_terms() for y in T.walk(tm) if y[0] == "sub" and (y[1] == ("param", "context") or y[1] == C.sattr("context"))]
+                for tm in p.all_terms():
+                    for x in T.walk(tm):
+                        if T.is_call_to(x, f"{C.INSP}.args") and any(T.contains(k, lambda z, x=x: z == x) for k in keys):
+                            n_ctor += 1
+                            ev_kw = dict(x[3]).get("evaluate") or (x[2][1] if len(x[2]) > 1 else ("const", False))
+                            if ev_kw != ("const", True):
+                                raw_ctor.append(c.name)
+    if n_ctor:
+        rep.check(not raw_ctor, rule, "typelib.routines", "", f"{n_ctor} member look-ups of routine constructors use inspection.args(t, evaluate=True)", f"{sorted(set(raw_ctor))[:3]} take(s) the members from inspection.args without evaluate=True: a string member (Union['Node', int], list['Node']) is looked up in the context as the reference, while the graph registered the evaluated class -- KeyError: ForwardRef('Node') when the routine is built", detail="ctor-args-evaluated")
     okargs = okeval = False
     for p, r in P.returns(P.paths_of(prog, af)):
         if T.contains(r, lambda s: T.is_call_to(s, "typing.get_args") and s[2] == (ann,)):
@@ -585,6 +612,33 @@ def hints_module_owner(prog: Program, rep: Report, rule: str):
     is_eval = lambda y: T.is_call_to(y, "typing.get_type_hints") and y[2] and T.contains(y[2][0], carrier)  # noqa: E731
     # ... and what it yields is what gets stored for a parameter (not merely computed)
     evaluated = any(e[0] == "setitem" and T.contains(e[3], is_eval) for p in P.paths_of(prog, hs) for e in p.events) or any(p.exit[0] == "return" and T.contains(p.exit[1], is_eval) for p in P.paths_of(prog, hs))
+    # the carrier is the constructor *for a class* and the object itself otherwise (not the other way round), and the evaluated
+    # hint is fetched under the parameter's name, the raw annotation being the fallback
+    def fold_class(tm, is_class):
+        y = T.rewrite(tm, lambda z: ("const", is_class) if T.is_call_to(z, "inspect.isclass") and z[2][:1] == (obj,) else None)
+        while y[0] == "ifexp" and y[1][0] == "const":
+            y = y[2] if y[1][1] else y[3]
+        return y
+
+    orient_ok = True
+    fetch_ok = True
+    for p in P.paths_of(prog, hs):
+        for tm in p.all_terms():
+            for x in T.walk(tm):
+                if is_eval(x):
+                    c_term = x[2][0]
+                    known = [val for a, val in T.derive_atoms(p.guards()) if T.is_call_to(a, "inspect.isclass") and a[2][:1] == (obj,)]
+                    cases = [known[-1]] if known else [True, False]  # (an `if` statement decides on the path, a conditional expression in the term)
+                    for is_class in cases:
+                        got = fold_class(c_term, is_class)
+                        if not (carrier(got) if is_class else got == obj):
+                            orient_ok = False
+                if x[0] == "call" and x[1][0] == "attr" and x[1][2] == "get" and T.contains(x[1][1], is_eval) and len(x[2]) == 2:
+                    k, dflt = x[2]
+                    if not (k[0] in ("key", "unpack", "elem", "index") or k[0] == "attr" and k[2] == "name") or not T.contains(dflt, lambda z: z[0] == "attr" and z[2] == "annotation"):
+                        fetch_ok = False
+    rep.check(orient_ok, rule, hs.qualname, hs.loc, "the hints are evaluated on the constructor of a class, on the object itself otherwise", "the carrier of the signature is chosen the wrong way round: for a class typing.get_type_hints is asked about the class (its class-level annotations), not about the __init__ whose parameters are being read", detail="hints-carrier-orientation")
+    rep.check(fetch_ok, rule, hs.qualname, hs.loc, "the evaluated hint is fetched under the parameter's name (the raw annotation is the fallback)", "the evaluated hints are indexed with the annotation (and default to the name): every parameter whose annotation is an object gets its own *name* as its hint", detail="hints-fetch")
     rep.check(from_carrier and evaluated, rule, hs.qualname, hs.loc, "annotations of a signature are resolved in the namespace of the function that carries them", "annotations read from a signature are resolved relative to the *class* and, when they are objects with references inside (nxt: Optional['Node'], kids: list['Tree']), not at all: the inner reference has no module and is looked up from the stack of whoever calls the library -- NameError when the model lives in another module, or the caller's unrelated class of the same name; a subclass in another module that inherits an annotated __init__ has its string annotations evaluated in its own module", detail="hints-carrier")
     rep.check(not bad, rule, hs.qualname, hs.loc, "the object's own __module__ is used for string annotations only when the object is not an alias", "string annotations of a signature are always looked up in obj.__module__: for an alias such as tuple['UserId', int] that attribute is the module of the origin class ('builtins'), so the member is evaluated there -- NameError: name 'UserId' is not defined, although list['UserId'] and Tuple['UserId', int] work", detail="hints-module-owner")
 
